@@ -212,7 +212,25 @@ pub fn random_spec(rng: &mut Rng, b: &SpecBounds) -> Spec {
 }
 
 /// Pick a spec: zoo member or random, according to the case index parity and bounds.
+/// Self-nesting master through an unbounded placeholder (like Matroska's SimpleTag / ChapterAtom).
+pub fn z_recursive() -> Spec {
+    use PP::Id;
+    let mut e = vec![
+        el("Root", 0x1A45DFA3, Ty::Master, vec![]),
+        el("Rec", 0xA0, Ty::Master, vec![Id(0x1A45DFA3), PP::Glob(Some(0), None)]),
+        el("Val", 0xD7, Ty::U, vec![Id(0x1A45DFA3), PP::Glob(Some(0), None)]),
+        el("Sib", 0xAE, Ty::Master, vec![Id(0x1A45DFA3)]),
+        el("SibVal", 0xB0, Ty::U, vec![Id(0x1A45DFA3), Id(0xAE)]),
+        el("Name", 0x536E, Ty::S, vec![Id(0x1A45DFA3), PP::Glob(Some(1), Some(3))]),
+    ];
+    e.extend(globals());
+    Spec { name: "Z_RECURSIVE".into(), elems: e }
+}
+
 pub fn pick_spec(rng: &mut Rng, b: &SpecBounds) -> Spec {
+    if b.global_masters && rng.chance(1, 12) {
+        return z_recursive();
+    }
     match rng.below(10) {
         0 => z_test(),
         1 | 2 => z_kitchen(b.global_masters),
